@@ -25,7 +25,7 @@ KF_IMAX = ("a numerical column holding the u64 value 9223372036854775807 (= i64:
 SAFE_SHARED = {"const", "linear", "linear_noise", "blockwise", "small", "gcd", "sorted", "if", "all3", "above32", "gcd32", "wide31"}   # values below 2^53 in magnitude
 KF_BELOW_MIN = ("Column::get_docids_for_value_range with a value range entirely below the column's minimum returns the rows holding the minimum "
                 "instead of nothing (bit-packed codec: transform_range_before_linear_transformation saturates both bounds to 0)")
-INDEX_NAME = {"u64": ["u"], "i64": ["i"], "f64": ["f"], "bool": ["b", "j.o.b"], "date": ["d", "j.o.d"], "ip": ["ip"], "str": ["s", "j.s"],
+INDEX_NAME = {"u64": ["u"], "i64": ["i"], "f64": ["f"], "bool": ["b", "j.o.b"], "date": ["d", "j.o.d"], "ip": ["ip"], "str": ["s", "j.s", "tkr"], "tok": ["tk"],
               "bytes": ["y"], "mixed": ["j.a"]}
 
 
@@ -126,6 +126,16 @@ def threshold_cases(gen, first_id, rng, quick):
             {"order": "none"}, t)
         if b == 0:
             add("index", [{"nrows": t["nrows"], "cols": [col("u", "u64", "optional", n, 0, "linear"), col("s", "str", "optional", n, 0)]}], {"order": "none"}, t)
+    # tokenized text fast fields (index path): every token occurrence, in order
+    toks = [c for c in gen if c["what"] == "tokcol"]
+    for k, t in enumerate(toks):
+        if quick and k % 3:
+            continue
+        def tc(name, kind, pattern, card):
+            return {"name": name, "kind": kind, "pattern": pattern, "card": card, "present": "rand", "density": 700, "expect_type": "str"}
+        tables = [{"nrows": nr, "cols": [tc("tk", "tok", t["pattern"], t["card"]), tc("tkr", "str", "small", "optional"), tc("s", "str", "small", "multi")]}
+                  for nr in (40, 25)]
+        add("index", tables, t["merge"], t)
     # a completely filled 65,536-row block (and one row short of it), directly and after a stacked merge
     for t in [c for c in gen if c["what"] == "fullblock"]:
         n, b = t["count"], t["block"]
